@@ -23,12 +23,31 @@ def install(w):
                ensures=INT_POST + ["num_eq(result, value)"],
                raises=["GraphQLError"],
                on_raise={"GraphQLError": ["not IntLike32(value)"]},
-               props={"C16", "C15"})
+               props={"C16", "C15", "C02"})
     w.contract(f"{M}.coerce_int_from_string", params={"value": "str"}, returns="int",
-               ensures=INT_POST, raises=["GraphQLError"], props={"C16"})
+               ensures=INT_POST + ["is_int_str(value)", "int_of(result) == int_of_str(value)"],
+               raises=["GraphQLError"],
+               # rejects only texts that are no integer or lie outside 32 bits
+               on_raise={"GraphQLError": ["not (is_int_str(value) and " + IN32.format("int_of_str(value)") + ")"]},
+               props={"C16", "C02"})
+    # literal coercion of Int: an IntValue whose text is a 32-bit integer, nothing else
+    w.alias("IntValueNode", "graphql.language.ast.IntValueNode")
+    w.shape("ValueNode", value="dyn")    # str for Int/Float/String/Enum values, bool for Boolean
+    # well-formed AST (field types as annotated): the text of an IntValue is a str
+    LIT_WF = ["implies(isinstance(value_node, IntValueNode), is_str(value_node.value))"]
+    INT_LIT_OK = ("isinstance(value_node, IntValueNode) and is_int_str(value_node.value) and "
+                  + IN32.format("int_of_str(value_node.value)"))
+    w.contract(f"{M}.parse_int_literal", params={"value_node": "ref:ValueNode", "_variables": "dyn"},
+               returns="int", requires=LIT_WF,
+               ensures=[INT_LIT_OK, "result == int_of_str(value_node.value)"],
+               raises=["GraphQLError", "ValueError"],
+               on_raise={"GraphQLError": [f"not ({INT_LIT_OK})"],
+                         "ValueError": ["isinstance(value_node, IntValueNode)",
+                                        "not is_int_str(value_node.value)"]},
+               props={"C15", "C16"})
     w.contract(f"{M}.serialize_int", params={"output_value": "dyn"}, returns="int",
                ensures=INT_POST + ["implies(Numeric(output_value), num_eq(result, output_value))"],
-               raises=["GraphQLError"], props={"C16"})
+               raises=["GraphQLError"], props={"C16", "C02"})
     w.contract(f"{M}.coerce_int", params={"input_value": "dyn"}, returns="int",
                ensures=INT_POST + ["num_eq(result, input_value)",
                                    "is_int(input_value) or is_float(input_value)"],
@@ -42,20 +61,20 @@ def install(w):
                requires=["is_float(value)"],
                ensures=FLOAT_POST + ["num_eq(result, value)"], raises=["GraphQLError"],
                on_raise={"GraphQLError": ["not is_finite_float(value)"]},
-               props={"C16", "C15"})
+               props={"C16", "C15", "C02"})
     w.contract(f"{M}.coerce_float_from_int", params={"value": "dyn"}, returns="dyn",
                requires=["is_int(value) or is_bool(value)"],
                # exactness: an int never comes out as a different number
                ensures=FLOAT_POST + ["num_eq(result, value)"], raises=["GraphQLError"],
                on_raise={"GraphQLError": ["not (-9007199254740992 <= int_of(value) <= 9007199254740992) or is_bool(value)"]},
-               props={"C16", "C15"})
+               props={"C16", "C15", "C02"})
     w.contract(f"{M}.coerce_float_from_string", params={"value": "str"}, returns="dyn",
-               ensures=FLOAT_POST, raises=["GraphQLError"], props={"C16"})
+               ensures=FLOAT_POST, raises=["GraphQLError"], props={"C16", "C02"})
     w.contract(f"{M}.serialize_float", params={"output_value": "dyn"}, returns="dyn",
                ensures=["is_finite_float(result) or (is_bool(output_value) and is_int(result)"
                         " and 0 <= int_of(result) <= 1)",
                         "implies(Numeric(output_value), num_eq(result, output_value))"],
-               raises=["GraphQLError"], props={"C16"})
+               raises=["GraphQLError"], props={"C16", "C02"})
     w.contract(f"{M}.coerce_float", params={"input_value": "dyn"}, returns="dyn",
                ensures=FLOAT_POST + ["num_eq(result, input_value)"], raises=["GraphQLError"],
                on_raise={"GraphQLError": [
@@ -63,33 +82,66 @@ def install(w):
                    " -9007199254740992 <= int_of(input_value) <= 9007199254740992))"]},
                props={"C16", "C15"})
 
+    # literal coercion of Float: an Int or Float token whose text denotes a finite double
+    for n_ in ("FloatValueNode", "StringValueNode", "BooleanValueNode"):
+        w.alias(n_, f"graphql.language.ast.{n_}")
+    FL_WF = ["implies(isinstance(value_node, (FloatValueNode, IntValueNode)), is_str(value_node.value))"]
+    FL_NODE = "isinstance(value_node, (FloatValueNode, IntValueNode))"
+    w.contract(f"{M}.parse_float_literal", params={"value_node": "ref:ValueNode", "_variables": "dyn"},
+               returns="dyn", requires=FL_WF,
+               ensures=[FL_NODE, "is_finite_float(result)", "float_of_str_eq(result, value_node.value)"],
+               raises=["GraphQLError", "ValueError"],
+               on_raise={"GraphQLError": [f"not ({FL_NODE} and is_float_str(value_node.value)"
+                                          " and float_str_finite(value_node.value))"],
+                         "ValueError": [FL_NODE, "not is_float_str(value_node.value)"]},
+               props={"C15", "C16"})
+    w.contract(f"{M}.parse_string_literal", params={"value_node": "ref:ValueNode", "_variables": "dyn"},
+               returns="dyn",
+               ensures=["isinstance(value_node, StringValueNode)", "same(result, value_node.value)"],
+               raises=["GraphQLError"],
+               on_raise={"GraphQLError": ["not isinstance(value_node, StringValueNode)"]},
+               props={"C15"})
+    w.contract(f"{M}.parse_boolean_literal", params={"value_node": "ref:ValueNode", "_variables": "dyn"},
+               returns="dyn",
+               ensures=["isinstance(value_node, BooleanValueNode)", "same(result, value_node.value)"],
+               raises=["GraphQLError"],
+               on_raise={"GraphQLError": ["not isinstance(value_node, BooleanValueNode)"]},
+               props={"C15"})
+    w.contract(f"{M}.parse_id_literal", params={"value_node": "ref:ValueNode", "_variables": "dyn"},
+               returns="dyn",
+               ensures=["isinstance(value_node, (StringValueNode, IntValueNode))",
+                        "same(result, value_node.value)"],
+               raises=["GraphQLError"],
+               on_raise={"GraphQLError": ["not isinstance(value_node, (StringValueNode, IntValueNode))"]},
+               props={"C15"})
+
     # ---- String / Boolean / ID ---------------------------------------------------------------
     w.contract(f"{M}.coerce_string_from_number", params={"value": "dyn"}, returns="str",
                requires=["is_float(value)"], ensures=["is_str(result)"], raises=["GraphQLError"],
-               props={"C16"})
+               props={"C16", "C02"})
     w.contract(f"{M}.serialize_string", params={"output_value": "dyn"}, returns="dyn",
                ensures=["is_str(result)", "implies(is_str(output_value), same(result, output_value))"],
-               raises=["ValueError", "Exception"], props={"C16"})
+               raises=["ValueError", "Exception"], props={"C16", "C02"})
     w.contract(f"{M}.coerce_string", params={"input_value": "dyn"}, returns="dyn",
                ensures=["is_str(result)", "same(result, input_value)"], raises=["GraphQLError"],
                on_raise={"GraphQLError": ["not is_str(input_value)"]}, props={"C16", "C15"})
     w.contract(f"{M}.coerce_boolean_from_number", params={"value": "dyn"}, returns="bool",
                requires=["is_float(value)"], ensures=["is_bool(result)"], raises=["GraphQLError"],
-               props={"C16"})
+               props={"C16", "C02"})
     w.contract(f"{M}.serialize_boolean", params={"output_value": "dyn"}, returns="dyn",
                ensures=["is_bool(result)",
                         "implies(is_bool(output_value), same(result, output_value))"],
-               raises=["GraphQLError"], props={"C16"})
+               raises=["GraphQLError"], props={"C16", "C02"})
     w.contract(f"{M}.coerce_boolean", params={"input_value": "dyn"}, returns="dyn",
                ensures=["is_bool(result)", "same(result, input_value)"], raises=["GraphQLError"],
                on_raise={"GraphQLError": ["not is_bool(input_value)"]}, props={"C16", "C15"})
     w.contract(f"{M}.coerce_id_from_number", params={"value": "dyn"}, returns="str",
                requires=["Numeric(value)"], ensures=["is_str(result)"],
                # str(int) raises ValueError above the interpreter's digit limit
-               raises=["GraphQLError", "ValueError"], props={"C16", "C15"})
+               raises=["GraphQLError", "ValueError"], props={"C16", "C15", "C02"})
     w.contract(f"{M}.serialize_id", params={"output_value": "dyn"}, returns="dyn",
                ensures=["is_str(result)", "implies(is_str(output_value), same(result, output_value))"],
-               raises=["ValueError", "Exception"], props={"C16"})
+               raises=["ValueError", "Exception"], props={"C16", "C02"})
     w.contract(f"{M}.coerce_id", params={"input_value": "dyn"}, returns="dyn",
                ensures=["is_str(result)", "implies(is_str(input_value), same(result, input_value))"],
                raises=["ValueError", "Exception"],
